@@ -33,6 +33,12 @@ func (a *AuditLogIngester) Ingest(ctx context.Context) error {
 }
 
 func (a *AuditLogIngester) Process(ctx context.Context, line string) error {
-	a.AuditLogChan <- line
-	return nil
+	// Do not block forever when the channel is full and its
+	// consumer has already stopped.
+	select {
+	case a.AuditLogChan <- line:
+		return nil
+	case <-ctx.Done():
+		return ctx.Err()
+	}
 }
